@@ -416,7 +416,7 @@ func propC16(c c16Case) *Outcome {
 	gotLog := append([]string{}, lg.ev...)
 	lg.mu.Unlock()
 	o.Observed = map[string]interface{}{"log": gotLog, "want_log": wantLog, "err": errStr(gotErr), "resp": fmt.Sprint(gotResp)}
-	if !reflect.DeepEqual(gotLog, wantLog) {
+	if !sameStrings(gotLog, wantLog) {
 		return o.failf("%s: event log %v, expected %v", c.Carrier, gotLog, wantLog)
 	}
 	if status.Code(gotErr) != wantErr {
